@@ -624,3 +624,43 @@ Proof.
   - rewrite !forallb_app, !fmt_pos_digits. reflexivity.
   - rewrite !app_length. cbn [length]. lia.
 Qed.
+
+(* the characters of a formatted instant of the documented range *)
+Definition ts_char (c : N) : Prop :=
+  is_digit c = true \/ c = 45%N \/ c = 58%N \/ c = 46%N \/ c = 84%N \/ c = 90%N.
+
+Lemma dch_ts_char z : 0 <= z <= 9 -> ts_char (dch z).
+Proof. intros H. left. apply dch_digit. exact H. Qed.
+
+Theorem format_clock_chars s ns : ts_range s ns -> Forall ts_char (format_clock s ns).
+Proof.
+  intros [Hs Hns]. unfold format_clock.
+  assert (Hw : abs_wrap s = s).
+  { unfold abs_wrap, unix_to_absolute. destruct (s <? - (9223372028741760000)) eqn:E; [lia|reflexivity]. }
+  rewrite Hw. set (days := s / 86400). set (sod := s mod 86400).
+  assert (Hsod : 0 <= sod < 86400) by (unfold sod; divlia).
+  assert (Hdr : -719162 <= days <= 2932896) by (unfold days; divlia).
+  pose proof (civil_roundtrip days) as Hrt. pose proof (civil_year_range days Hdr) as Hyr.
+  destruct (civil_from_days days) as [[y m] d]. destruct Hrt as (_ & Hm & Hd).
+  pose proof (days_in_le m y) as Hdi.
+  set (h := sod / 3600). set (mi := sod mod 3600 / 60). set (sc := sod mod 60).
+  assert (Hh : 0 <= h <= 23) by (unfold h; divlia).
+  assert (Hmi : 0 <= mi <= 59) by (unfold mi; divlia).
+  assert (Hsc : 0 <= sc <= 59) by (unfold sc; divlia).
+  rewrite (append_int_4 y) by lia. rewrite (append_int_2 m), (append_int_2 d), (append_int_2 h), (append_int_2 mi), (append_int_2 sc) by lia.
+  cbn [app].
+  repeat (apply Forall_cons; [first [apply dch_ts_char; divlia | unfold ts_char; tauto]|]).
+  apply Forall_app. split; [|repeat constructor; unfold ts_char; tauto].
+  destruct (Z.eq_dec ns 0) as [->|Hnz]; [constructor|].
+  destruct (frac_parse ns ltac:(lia)) as (c & ds & Hf & Hdig & _). rewrite Hf.
+  constructor; [unfold ts_char; tauto|].
+  apply Forall_forall. intros x Hx. left. rewrite forallb_forall in Hdig. apply Hdig. exact Hx.
+Qed.
+
+Theorem format_rfc3339_chars s ns : ts_range s ns -> Forall ts_char (format_rfc3339nano s ns).
+Proof.
+  intros [Hs Hns]. unfold format_rfc3339nano, go_unix.
+  assert (E1 : ns / 1000000000 = 0) by divlia. assert (E2 : ns mod 1000000000 = ns) by divlia.
+  rewrite E1, E2. assert (Ew : wrap64 (s + 0) = s) by (unfold wrap64, two63, two64; divlia).
+  rewrite Ew. apply format_clock_chars. split; assumption.
+Qed.
